@@ -12,7 +12,7 @@ import (
 const c07Rule = "rapid-generated histories as in C01/C02/C04 and, one in six, as in C09 (re-bucketing to another bit size, refused opens) (all primaries, small file sizes, GC cycles with budgets, close/reopen through snapshot, rescan and unusable snapshot); after every Flush, every completed GC cycle, every reopen and every Close an independent reader of the file formats (sharing no code with the repository) checks every clause of the invariant: " +
 	"live bucket table = own rescan of the index files (= bucket snapshot after Close); each bucket -> complete, non-deleted, correctly tagged record in an existing file at or after the header's first file; entries sorted, pairwise prefix-free, distinct locations; each entry -> complete non-deleted primary record of the recorded size whose digest has the bucket bits and the stored prefix; no live location in .free/.free.gc; primary first-file <= referenced files; " +
 	"concurrent part: " + stressRuleText + " - here only the fsck of the directory after Close is judged (collectors off / index GC on the CID primary / both collectors with keys only added); " +
-	suspRuleText + " (here only the fsck clauses are judged); " +
+	suspRuleText + " (here only the fsck clauses are judged); converted stores: legacy stores written by the encoder of C10 are opened (conversion) and the fsck runs right after the open, before anything is read, and again on the files after Close; " +
 	"crash part: workloads of the C03 generator run under the crash recorder; drawn crash images (captured and torn) are restored, opened, and the same invariant is checked on the recovered store before and after a flush; non-trivial = some checked image had >=2 index files or >=2 primary files, >=1 deleted-marked record and >=1 bucket holding >=2 entries; distinct = distinct canonical JSON of the case"
 
 type fsckAgg struct {
@@ -61,6 +61,41 @@ func fsckOpts(agg *fsckAgg) seqOpts {
 	return o
 }
 
+// fsckConverted opens (converts) a legacy store written by the encoder of C10
+// and checks the files right after the open and after the following Close.
+func fsckConverted(lc LegacyCase) (chunks int, v *Violation) {
+	dir := newScratch("fsckconv")
+	defer os.RemoveAll(dir)
+	writeLegacy(dir, lc)
+	cfg := lc.cfg()
+	v = guard(-1, "fsck-converted", func() *Violation {
+		s, err := openStore(dir, cfg)
+		if err != nil {
+			return nil // whether the conversion succeeds is C10's subject
+		}
+		chunks = len(numberedFiles(dir, dataBase))
+		live := s.Index().VerifBuckets()
+		tbl := make([]uint64, len(live))
+		for i, p := range live {
+			tbl[i] = uint64(p)
+		}
+		_, clause, detail := fsck(fsckInput{Dir: dir, Cfg: cfg, Live: tbl})
+		if clause != "" {
+			s.Close()
+			return viol("fsck|after-upgrade|"+clause, -1, "%s", detail)
+		}
+		if err := s.Close(); err != nil {
+			return nil
+		}
+		_, clause, detail = fsck(fsckInput{Dir: dir, Cfg: cfg, UseSnap: true})
+		if clause != "" {
+			return viol("fsck|after-upgrade-and-close|"+clause, -1, "%s", detail)
+		}
+		return nil
+	})
+	return chunks, v
+}
+
 func genC07(t *rapid.T) SeqCase {
 	// One history in six comes from the C09 generator: states right after a
 	// re-bucketing (and after a refused open) belong to the quantifier too.
@@ -84,6 +119,17 @@ func TestC07(t *testing.T) {
 			v = nil
 		}
 		return st, agg, v
+	}
+	if envReplay != "" && bytes.Contains(readReplayRaw(envReplay).Case, []byte(`"free_mode"`)) {
+		var lc LegacyCase
+		readReplay(envReplay, &lc)
+		_, v := fsckConverted(lc)
+		ev.Record(lc, true)
+		if v != nil {
+			ev.Report(v, lc)
+			t.Fatalf("replay: %v", v)
+		}
+		return
 	}
 	if envReplay != "" && strings.Contains(string(readReplayRaw(envReplay).Case), "image_hex") {
 		var rp RecoveryReplay
@@ -173,6 +219,36 @@ func TestC07(t *testing.T) {
 			rt.Fatalf("%v", v)
 		}
 	})
+	if t.Failed() {
+		return
+	}
+	// Converted stores: the state right after the conversion of a legacy
+	// store (before anything is read, since a read that trips over a bad
+	// entry removes it), and the files after the following Close.
+	converted := 0
+	setRapidChecks(budget(250, 1000))
+	rapid.Check(t, func(rt *rapid.T) {
+		if pastDeadline() {
+			ev.Skip()
+			return
+		}
+		lc := genLegacy(rt)
+		lc.DropTail, lc.CutMid = 0, false // entries without primary data are C10's subject
+		chunks, v := fsckConverted(lc)
+		converted++
+		cl := []string{"converted-legacy-store"}
+		if chunks >= 2 {
+			cl = append(cl, "converted-legacy-store:primary-split-into-chunks")
+		}
+		ev.Record(lc, chunks >= 2, cl...)
+		if v != nil && ev.Report(v, lc) {
+			rt.Fatalf("%v", v)
+		}
+	})
+	ev.Extra["converted_stores"] = converted
+	if t.Failed() {
+		return
+	}
 	// Crash sub-campaign: "after recovery from any crash". Workloads run under
 	// the crash recorder of C03; drawn crash images are restored and opened,
 	// and the invariant is checked on the recovered store (right after the
